@@ -304,6 +304,18 @@ class Evaluator:
             ov = self.ev(m['obj'])
             pv = self.prop_value(m['prop'])
             return self.event('delete', ov, pv)
+        if isinstance(op, int) and op == 6 and kind(a) == 'OptChain' and not is_lazy(payload(a)['base']) and payload(a)['base'].get('_v') == 'Member':
+            # `delete a?.b.c`: the reference is deleted unless the chain short-circuits (then the result is `true`, nothing happens)
+            cp = payload(a)
+            m = cp['base']['_0']
+            optional = cp['optional'] if isinstance(cp['optional'], bool) else self.decide(('optional', str(cp['optional'])), cp['optional'])
+            ov = self.chain(m['obj'])
+            if ov == SHORT:
+                return ('lit', 'true')
+            if optional and self.decide(('nullish', ov)):
+                return ('lit', 'true')
+            pv = self.prop_value(m['prop'])
+            return self.event('delete', ov, pv)
         v = self.ev(a)
         return self.event('unop', op, v)
 
